@@ -44,6 +44,10 @@ class Ctx:
         self.repo = repo
         self.sources = sources or {}
         self.checks = []
+        self.counts = {}
+        self.nfailed = {}
+        self.first_fail = {}
+        self.fail_details = {}
         self.covered = []
         self.undo = []
         self.drawn = {}
@@ -64,9 +68,39 @@ def proof(prop, targets=(), assumes=(), name=None, note=''):
     def deco(fn):
         d = Decl(prop, name or fn.__name__, fn, list(targets), list(assumes),
                  note)
+        d.kind = 'proof'
         PROOFS[(fn.__module__, d.name)] = d
         return fn
     return deco
+
+
+def bounded(prop, targets=(), assumes=(), name=None, note='', bound=''):
+    """A bounded stand-in: runs natively only, enumerating its own input
+    family and calling check() for every case.  Never counted as proved."""
+    def deco(fn):
+        d = Decl(prop, name or fn.__name__, fn, list(targets), list(assumes),
+                 note)
+        d.kind = 'bounded'
+        d.bound = bound
+        PROOFS[(fn.__module__, d.name)] = d
+        return fn
+    return deco
+
+
+def rng():
+    """The seeded random generator of a bounded run (VERIF_SEED)."""
+    return _c().rng
+
+
+def tier():
+    import os
+    return os.environ.get('VERIF_TIER_EFFECTIVE', 'quick')
+
+
+def model(mod, name, value):
+    """Symbolic-only replacement of a dependency by its assumed contract;
+    natively the real dependency runs."""
+    pass
 
 
 # ---------------------------------------------------------------------------
@@ -254,10 +288,21 @@ def assume(*conds):
             raise Infeasible('assume')
 
 
-def check(name, cond, props=None):
+def check(name, cond, props=None, detail=None):
     if props:
         name = name + '@' + props.replace(' ', ',')
-    _c().checks.append((name, bool(cond)))
+    c = _c()
+    ok = bool(cond)
+    c.counts[name] = c.counts.get(name, 0) + 1
+    if not ok:
+        c.nfailed[name] = c.nfailed.get(name, 0) + 1
+        if name not in c.first_fail:
+            c.first_fail[name] = None if detail is None else str(detail)[:400]
+        lst = c.fail_details.setdefault(name, [])
+        if len(lst) < 50:
+            lst.append(None if detail is None else str(detail)[:400])
+    if len(c.checks) < 5000:
+        c.checks.append((name, ok))
 
 
 def cover(name):
@@ -265,7 +310,7 @@ def cover(name):
 
 
 def unreachable(name):
-    _c().checks.append((name, False))
+    check(name, False)
 
 
 def trust(tag):
@@ -474,6 +519,12 @@ def run_native(modname, proofname, inputs=None, rng=None, repo='/repo',
         logging.disable(olddis)
         _ctx = None
     out['checks'] = ctx.checks
-    out['failed'] = [n for n, ok in ctx.checks if not ok]
+    out['counts'] = ctx.counts
+    out['nfailed'] = ctx.nfailed
+    out['first_fail'] = ctx.first_fail
+    out['fail_details'] = ctx.fail_details
+    out['kind'] = getattr(decl, 'kind', 'proof')
+    out['bound'] = getattr(decl, 'bound', '')
+    out['failed'] = sorted(ctx.nfailed)
     out['drawn'] = ctx.drawn
     return out
